@@ -90,3 +90,58 @@ CONTRACTS[F + "variable_window_radii"] = dict(
              "implies(not is_none(mask_index), result[mask_index] == 0)",
              "unchanged(token_frequency)"],
 )
+
+
+# ---------------------------------------------------------------- multiset kernels (C03, C10, C14): one weight per element of the flattened window
+# window[0] is the target's own multiset; cnt[j] = size of the multiset at distance j (ghost)
+_MK_PARAMS = dict(window="list[int[]]", target_ind="int", mask_index="int", normalize="bool", offset="int")
+_MK_PRE = ["offset >= 0", "len(window) >= 1", "0 <= target_ind and target_ind < len(window[0])"]
+_OFFLEN = "psum(cnt, min(offset, len(window)))"       # number of flattened elements in the first `offset` multisets
+_MK_POST = [
+    "len(result) == psum(cnt, len(window))",           # what the multiset event kernel assumes of its kernel functions
+    "result[target_ind] == 0",                          # the target does not co-occur with its own occurrence
+    "forall(0, %s, lambda p: result[p] == 0)" % _OFFLEN,   # kernel offset: the first `offset` multisets carry no weight
+    "forall(0, len(result), lambda p: result[p] >= 0)",
+]
+_MK_INV2 = [   # the weighting loop: ind is the flattened position of multiset i
+    "len(kernel_result) == result_len and result_len == psum(cnt, len(window)) and len(ker) == len(window)",
+    "ind == psum(cnt, i)",
+    "forall(0, len(kernel_result), lambda p: kernel_result[p] >= 0)",
+    "forall(0, min(ind, %s), lambda p: kernel_result[p] == 0)" % _OFFLEN,
+    "forall(ind, len(kernel_result), lambda p: kernel_result[p] == 0)",
+]
+CONTRACTS[F + "multi_flat_kernel"] = dict(
+    params=_MK_PARAMS, variants=_KVARIANTS,
+    local_types=dict(cnt="list[int]"),
+    requires=_MK_PRE,
+    returns="real[]",
+    ghost_init="cnt = [len(m) for m in window]\nlemma(psum_monotone(cnt))",
+    ensures=_MK_POST + ["implies(not normalize and is_none(mask_index), forall(%s, len(result), lambda p: p == target_ind or result[p] == 1))" % _OFFLEN],
+    loops={
+        "for#1": dict(invariant=["result_len == psum(cnt, _k_for1)"]),
+        "for#2": dict(ghost_step=None, invariant=_MK_INV2 + [
+            "implies(is_none(mask_index), forall(%s, ind, lambda p: kernel_result[p] == 1))" % _OFFLEN]),
+        "for#3": dict(invariant=_MK_INV2[:1] + ["ind == psum(cnt, i)", "ind + len(mset) <= len(kernel_result)",
+                                               "forall(0, len(kernel_result), lambda p: kernel_result[p] >= 0)",
+                                               "forall(0, min(ind, %s), lambda p: kernel_result[p] == 0)" % _OFFLEN,
+                                               "forall(ind + len(mset), len(kernel_result), lambda p: kernel_result[p] == 0)"]),
+    },
+)
+
+CONTRACTS[F + "multi_geometric_kernel"] = dict(
+    params=dict(_MK_PARAMS, power="real"), variants=_KVARIANTS,
+    local_types=dict(cnt="list[int]"),
+    requires=_MK_PRE + ["power > 0"],
+    returns="real[]",
+    ghost_init="cnt = [len(m) for m in window]\nlemma(psum_monotone(cnt))",
+    ghost_after=[("@assign:ker", 1, "assert forall(0, len(ker), lambda k: ker[k] >= 0)")],
+    ensures=_MK_POST,
+    loops={
+        "for#1": dict(invariant=["result_len == psum(cnt, _k_for1)"]),
+        "for#2": dict(invariant=_MK_INV2 + ["forall(0, len(ker), lambda k: ker[k] >= 0)"]),
+        "for#3": dict(invariant=_MK_INV2[:1] + ["ind == psum(cnt, i)", "ind + len(mset) <= len(kernel_result)",
+                                               "forall(0, len(kernel_result), lambda p: kernel_result[p] >= 0)",
+                                               "forall(0, min(ind, %s), lambda p: kernel_result[p] == 0)" % _OFFLEN,
+                                               "forall(ind + len(mset), len(kernel_result), lambda p: kernel_result[p] == 0)"]),
+    },
+)
